@@ -15,13 +15,12 @@ _ASSUME = ["fake kernel replaces poll/recv/send/socket/connect/...; the server's
            "the 32-byte reader differs from the real one only in the initial buffer length (shim)"]
 CHECKS = {
     "C09": dict(
-        promote=True,   # thorough bounds cost seconds: used for the quick tier as well
         level="model_checking",
-        runs=[dict(name="http", target="h_http", args=["--prop", "C09"], quick=["--dev", "2"], thorough=["--dev", "3"], share=0.8),
+        runs=[dict(name="http", target="h_http", args=["--prop", "C09"], quick=["--dev", "3"], thorough=["--dev", "4"], share=0.8),
               dict(name="http-single", target="h_http", args=["--prop", "C09", "--single"], share=0.5)],
         deadline=dict(quick=150, thorough=1500),
-        bounds=dict(quick="generated well-formed responses (see coverage.info) x every schedule with <=2 deviations (cut at any byte offset for responses <=250 bytes, would-block, spurious readiness, EINTR, send fragmentation/reset) + all-single-bytes schedule; cancel at every step boundary",
-                    thorough="larger response family, <=3 deviations"),
+        bounds=dict(quick="generated well-formed responses (see coverage.info) x every schedule with <=3 deviations (cut at any byte offset for responses <=250 bytes, would-block, spurious readiness, EINTR, send fragmentation/reset) + all-single-bytes schedule; cancel at every step boundary",
+                    thorough="larger response family (all chunk styles, limits, both real-buffer alignments, 1 MiB+5 bodies), <=4 deviations"),
         assumptions=_ASSUME),
     "C08": dict(
         level="model_checking",
